@@ -16,6 +16,7 @@ import DialsModel.Lemmas.Scan
 import DialsModel.Lemmas.Duration
 import DialsModel.Lemmas.ScanWords
 import DialsModel.Lemmas.ScanTable
+import DialsModel.Lemmas.QuoteItems
 
 namespace Dials.C15
 open Dials Dials.Parse
@@ -305,6 +306,31 @@ theorem C15_scanner_examples :
     scanText false "\"\\400\"".toList = some [.str none, .eof] ∧
     scanText true "k:`r\\n`".toList = some [.word ['k'], .colon, .str (some "r\\n".toList), .eof] := by
   refine ⟨by decide, by decide, by decide, by decide, by decide⟩
+
+/-! ### every string: non-ASCII, unprintable, invalid UTF-8 -/
+
+/-- strconv.Quote on ANY byte string, given as its items (ASCII characters, bytes that start no valid UTF-8 sequence,
+printable runes written verbatim, unprintable runes written `\uXXXX` / `\UXXXXXXXX`: the split and the printability come
+from utf8 / strconv.IsPrint and are compared on every run): the quoted form, followed by anything, is scanned as ONE string
+token - the scanner stops at the quote that Quote wrote - and strconv.Unquote gives back exactly the string's bytes. -/
+theorem C15_quote_any_string_scans_back (m : Bool) (is : List QItem) (h : ∀ i ∈ is, i.ok) (rest : List Char) :
+    ∃ cs, quoteItems is ++ rest = '"' :: cs ∧ scanTok m '"' cs = .tok (.str (some (itemsBytes is))) rest :=
+  scanTok_quoteItems m is h rest
+
+/-- for an ASCII string this is `C15_quote_scans_back`: the items are its characters -/
+theorem C15_quote_items_ascii (s : S) : quoteItems (s.map QItem.ascii) = quote s ∧ itemsBytes (s.map QItem.ascii) = s :=
+  quoteItems_ascii s
+
+/-- "café" with a Latin-1 byte (invalid UTF-8), é as a printable rune, U+200B (unprintable, `\u200b`), U+1F600 printable
+and U+E0001 (unprintable, `\U000e0001`): what is written, and that it reads back -/
+theorem C15_quote_items_examples :
+    quoteItems [.ascii 'c', .bad 0xE9, .print 0xE9, .esc 0x200B, .print 0x1F600, .esc 0xE0001]
+      = ['"', 'c', '\\', 'x', 'e', '9', Char.ofNat 0xC3, Char.ofNat 0xA9, '\\', 'u', '2', '0', '0', 'b',
+         Char.ofNat 0xF0, Char.ofNat 0x9F, Char.ofNat 0x98, Char.ofNat 0x80, '\\', 'U', '0', '0', '0', 'e', '0', '0', '0', '1', '"'] ∧
+    itemsBytes [.ascii 'c', .bad 0xE9, .print 0xE9, .esc 0x200B, .print 0x1F600, .esc 0xE0001]
+      = ['c', Char.ofNat 0xE9, Char.ofNat 0xC3, Char.ofNat 0xA9, Char.ofNat 0xE2, Char.ofNat 0x80, Char.ofNat 0x8B,
+         Char.ofNat 0xF0, Char.ofNat 0x9F, Char.ofNat 0x98, Char.ofNat 0x80, Char.ofNat 0xF3, Char.ofNat 0xA0, Char.ofNat 0x80, Char.ofNat 0x81] := by
+  refine ⟨by decide, by decide⟩
 
 /-! ### bare words (beyond the canonical form: what people type - `--tags=a,b,c`, `LIMITS=cpu:2,mem:4`) -/
 
